@@ -33,13 +33,16 @@ D1_SAFE = ('int64', 'float64', 'int32', 'float32')
 
 @st.composite
 def cases(draw):
-    dom = draw(st.sampled_from(['D1', 'D1', 'D1safe', 'D2', 'D3', 'D4', 'D4h']))
+    dom = draw(st.sampled_from(['D1', 'D1', 'D1safe', 'D2', 'D3', 'D4', 'D4h', 'D5c']))
     kinds = {'D1': D1, 'D1safe': D1_SAFE, 'D2': ('bool',), 'D3': ('bool', 'int64', 'float64'), 'D4': ('<U3', 'M8[D]', 'int64', 'float64'),
+             'D5c': ('complex128', 'float64', 'complex128', 'int64'),   # complex beside real columns: the sums and averages NumPy defines for them
              'D4h': (draw(st.sampled_from(['<U3', 'M8[D]', 'M8[s]'])),)}[dom]
     # decisive choices first (Hypothesis pins late draws to their first option for a share of the examples)
     if dom in ('D4', 'D4h'):
         allowed = ('min', 'max') if (dom == 'D4h' and kinds[0].startswith('M8')) else ('min', 'max', 'all', 'any')
         fn = draw(st.sampled_from(allowed))
+    elif dom == 'D5c':
+        fn = draw(st.sampled_from(('sum', 'mean', 'median', 'cumsum')))
     else:
         fn = draw(st.sampled_from(FUNCS))
     axis = 0 if dom in ('D3', 'D4', 'D4h') else draw(st.integers(0, 1))
@@ -49,7 +52,7 @@ def cases(draw):
     n = draw(st.sampled_from([3, 1, 2, 0, 2, 1, 3, 4, 4, 5, 5, 6]))
     m = draw(st.sampled_from([3, 1, 2, 0, 2, 1, 3, 4, 4, 5, 5, 6]))
     blks = draw(gen.blocks(n, m, kinds=kinds, missing=True))
-    if inf_mode:
+    if inf_mode and dom != 'D5c':   # (beside complex columns a real infinity is evaluated as inf+0j, whose average has no defined imaginary part)
         fb = [b for b in blks if b.dtype.kind == 'f' and b.size >= inf_mode]
         if fb:
             b = fb[draw(st.integers(0, len(fb) - 1))]
